@@ -717,21 +717,27 @@ pub fn c05(out: &str, plain: &[&Tok], marks: &[serde_json::Value], cfg: &Cfg) ->
         out[plain[ord - 1].end()..plain[ord].content_start()].contains('\n')
     };
     // is the block opened by `key` (or any block around it) an anonymous routine that was kept on its parent's line?
-    let inline_anon = |mut key: u64| -> bool {
+    // the nearest enclosing anonymous routine that was kept on its parent's line (0: none)
+    let anon_of = |mut key: u64| -> u64 {
         let mut guard = 0;
         while key != 0 && guard < 10_000 {
             guard += 1;
-            let Some((kind, refk)) = mark_of_key.get(&key) else { return false };
+            let Some((kind, refk)) = mark_of_key.get(&key) else { return 0 };
             if *kind == "A" {
                 if let Some(&o) = ord_of_key.get(&key) {
                     if o < plain.len() && !first_on_line(o) {
-                        return true;
+                        return key;
                     }
                 }
             }
             key = *refk;
         }
-        false
+        0
+    };
+    // ... and only a SMALL one is kept there deliberately: at most one statement or declaration in it, nested ones included
+    let inline_anon = |key: u64| -> bool {
+        let a = anon_of(key);
+        a != 0 && marks.iter().filter(|m| matches!(m[0].as_str().unwrap(), "S" | "U" | "D") && anon_of(m[2].as_u64().unwrap()) == a).count() <= 1
     };
     for m in marks {
         let kind = m[0].as_str().unwrap();
